@@ -148,14 +148,17 @@ func (i *interpreter) registerModels(harnessPkgPath string) {
 		return nil
 	})
 	i.addModel(hp+"vGo", "start a harness thread", func(fr *frame, a []value) value {
+		fr.t.hpoints++
 		fr.t.r.spawn(fr.t, a[0], nil, false, "vGo")
 		return nil
 	})
 	i.addModel(hp+"vYield", "scheduling point: any enabled thread may run", func(fr *frame, a []value) value {
+		fr.t.hpoints++
 		fr.t.yield()
 		return nil
 	})
 	i.addModel(hp+"vQuiesce", "run all other threads until none is enabled (no time passes)", func(fr *frame, a []value) value {
+		fr.t.hpoints++
 		fr.t.quiesceWait()
 		return nil
 	})
@@ -712,7 +715,7 @@ func (t *thread) yieldForced() {
 		return
 	}
 	c := r.decide("gosched", len(en))
-	t.switchTo(en[c])
+	t.switchTo(en[c], "lpreempt")
 }
 
 // ---------------------------------------------------------------------------
